@@ -229,7 +229,8 @@ def poller_part(res, rng):
         cfg = rng.choice([0x50484330, 0x50484331, 12345])
         steps, t = [], start + NS
         for _k in range(rng.randrange(1, 7)):
-            phc = rng.choice([0, 7, 99999999, 100000000, 250000000, 4294967295, 4294967296, 2147483647, 2147483648, 123456789012, 2 ** 62, rng.randrange(10 ** 13)])
+            phc = rng.choice([0, 7, 99999999, 100000000, 250000000, 4294967295, 4294967296, 2147483647, 2147483648, 123456789012, 2 ** 62, rng.randrange(10 ** 13), -1, -1])
+            # (-1: the attribute is gone for this poll - driver reloaded - and a new file is there at the next)
             # chronyd may select another source for a while and come back to the PHC
             steps.append((t, 1, rng.choice([0, 1000, 10 ** 6]), 0, phc, rng.choice([cfg, cfg, cfg ^ 1, 0x4E545031]), rng.randrange(1, 60000)))
             t += NS + rng.randrange(NS)
